@@ -154,3 +154,59 @@ func init() {
 		return pline, res, class
 	}})
 }
+
+// hsearch: Sources.InsertMatch with an explicit line and cursor to match against, from the main line or
+// from a history position reached by a walk (C09), against Hist.insertMatch.
+func init() {
+	pool := []string{"one", "two", "one two", "three", "one", "tw", "o", "abc", "a.c", "é中", "中é x", "x(y"}
+	texts := []string{"", "o", "one", "t", "tw", "zz", "ne", "a.c", ".", "é", "中", "(", "one two three"}
+	register(&model{name: "hsearch", gen: func(r *rand.Rand) (string, string, string) {
+		var src []string
+		for k := r.Intn(6); k > 0; k-- {
+			src = append(src, pool[r.Intn(len(pool))])
+		}
+		w0 := 0
+		if r.Intn(2) == 0 {
+			w0 = 1 + r.Intn(4)
+		}
+		ml := []rune(texts[r.Intn(len(texts))])
+		mp := r.Intn(len(ml) + 1)
+		usePos, fwd, regex := r.Intn(2) == 0, r.Intn(2) == 0, r.Intn(2) == 0
+		b := func(x bool) string {
+			if x {
+				return "1"
+			}
+			return "0"
+		}
+		var es []string
+		for _, e := range src {
+			es = append(es, natsR([]rune(e)))
+		}
+		ent := "-"
+		if len(es) > 0 {
+			ent = strings.Join(es, ",")
+		}
+		pline := fmt.Sprintf("hsearch %s %d %s %d %s%s%s", ent, w0, natsR(ml), mp, b(usePos), b(fwd), b(regex))
+		res := guard(func() string {
+			line := new(core.Line)
+			cur := core.NewCursor(line)
+			h := history.NewSources(line, cur, new(ui.Hint), inputrc.NewDefaultConfig())
+			for _, s := range src {
+				h.Current().Write(s)
+			}
+			history.Init(h)
+			h.Save()
+			if w0 != 0 {
+				h.Save()
+				h.Walk(w0)
+			}
+			m := core.Line(append([]rune{}, ml...))
+			mc := core.NewCursor(&m)
+			mc.Set(mp)
+			h.InsertMatch(&m, mc, usePos, fwd, regex)
+			return fmt.Sprintf("ok %s %d", natsR([]rune(*line)), cur.Pos())
+		})
+		class := fmt.Sprintf("fwd=%v/regex=%v/from-history=%v", fwd, regex, w0 != 0)
+		return pline, res, class
+	}})
+}
